@@ -1029,4 +1029,309 @@ theorem validate_spec (cfg : Cfg) (hg : cfg.arrayGuard = true) (hd : cfg.dupChec
                   obtain ⟨mp, hmp, hid⟩ := List.mem_map.1 this
                   exact ⟨mp, hmp, hid⟩
 
+/-! ### the verifier accepts the wallet's own submission when re-matching is stable -/
+
+/-- same keys, same `Raw()`, position by position -/
+def SameRaw : List (String × Cred) → List (String × Cred) → Prop
+  | [], [] => True
+  | a :: as, e :: es => a.1 = e.1 ∧ a.2.raw = e.2.raw ∧ SameRaw as es
+  | _, _ => False
+
+theorem SameRaw.length_eq : ∀ {a e : List (String × Cred)}, SameRaw a e → a.length = e.length
+  | [], [], _ => rfl
+  | _ :: as, _ :: es, h => by simp [SameRaw.length_eq h.2.2]
+  | [], _ :: _, h => by cases h
+  | _ :: _, [], h => by cases h
+
+theorem SameRaw.alGet_none : ∀ {a e : List (String × Cred)} {k : String}, SameRaw a e → alGet e k = none → alGet a k = none
+  | [], [], _, _, _ => rfl
+  | (ka, va) :: as, (ke, ve) :: es, k, h, hn => by
+    rw [alGet_cons] at hn ⊢
+    have hk : ka = ke := h.1
+    subst hk
+    split at hn
+    · cases hn
+    · next hne => simp only [hne, if_false]; exact SameRaw.alGet_none h.2.2 hn
+  | [], _ :: _, _, h, _ => by cases h
+  | _ :: _, [], _, h, _ => by cases h
+
+theorem SameRaw.pointwise : ∀ {a e : List (String × Cred)}, SameRaw a e → (e.map (·.1)).Nodup →
+    ∀ x ∈ e, ∃ y, alGet a x.1 = some y ∧ y.raw = x.2.raw
+  | [], [], _, _, x, hx => by cases hx
+  | (ka, va) :: as, (ke, ve) :: es, h, hnd, x, hx => by
+    have hk : ka = ke := h.1
+    subst hk
+    simp only [List.map_cons, List.nodup_cons] at hnd
+    cases hx with
+    | head => exact ⟨va, by rw [alGet_cons]; simp, h.2.1⟩
+    | tail _ h' =>
+      have hne : ka ≠ x.1 := fun hEq => hnd.1 (List.mem_map.2 ⟨x, h', hEq.symm⟩)
+      obtain ⟨y, hy, hr⟩ := SameRaw.pointwise h.2.2 hnd.2 x h'
+      exact ⟨y, by rw [alGet_cons]; simp [hne, hy], hr⟩
+  | [], _ :: _, h, _, _, _ => by cases h
+  | _ :: _, [], h, _, _, _ => by cases h
+
+theorem sameMapping_of_pointwise (actual : List (String × Cred)) : ∀ (expected : List (String × Cred)),
+    (∀ x ∈ expected, ∃ y, alGet actual x.1 = some y ∧ y.raw = x.2.raw) → sameMapping actual expected = true
+  | [], _ => rfl
+  | (id, c) :: rest, h => by
+    unfold sameMapping
+    obtain ⟨y, hy, hr⟩ := h (id, c) List.mem_cons_self
+    simp only at hy hr
+    rw [hy]
+    simp only [Bool.and_eq_true]
+    exact ⟨by simpa using hr, sameMapping_of_pointwise actual rest (fun x hx => h x (List.mem_cons_of_mem _ hx))⟩
+
+/-- Resolve (verifier, over the envelope) and the expected map (verifier's own matching) advance in lockstep -/
+theorem lockstep (cfg : Cfg) (decode : Decoder) (envJ : J) :
+    ∀ (sub : List Mapping) (vcs : List Cred) (acc1 acc2 : List (String × Cred)), Carries decode envJ sub vcs →
+      (sub.map (·.id)).Nodup → (∀ mp ∈ sub, alGet acc2 mp.id = none) → SameRaw acc1 acc2 →
+      ∃ actual expected, resolve cfg decode envJ acc1 sub = .ok actual ∧ expectedMap acc2 sub vcs = .ok expected ∧ SameRaw actual expected
+  | [], [], acc1, acc2, _, _, _, hrel => ⟨acc1, acc2, by unfold resolve; rfl, by unfold expectedMap; rfl, hrel⟩
+  | [], _ :: _, _, _, h, _, _, _ => by cases h
+  | _ :: _, [], _, _, h, _, _, _ => by cases h
+  | mp :: ms, c :: cs, acc1, acc2, hcar, hnd, hfresh, hrel => by
+    obtain ⟨⟨c', hc', hraw⟩, hcar'⟩ := hcar
+    simp only [List.map_cons, List.nodup_cons] at hnd
+    have hf2 : alGet acc2 mp.id = none := hfresh mp List.mem_cons_self
+    have hf1 : alGet acc1 mp.id = none := SameRaw.alGet_none hrel hf2
+    have hfresh' : ∀ mp' ∈ ms, alGet (alPut acc2 mp.id c) mp'.id = none := by
+      intro mp' hmp'
+      rw [alPut_fresh c hf2, alGet_cons]
+      have hne : mp.id ≠ mp'.id := fun hEq => hnd.1 (List.mem_map.2 ⟨mp', hmp', hEq.symm⟩)
+      simp [hne, hfresh mp' (List.mem_cons_of_mem _ hmp')]
+    have hrel' : SameRaw (alPut acc1 mp.id c') (alPut acc2 mp.id c) := by
+      rw [alPut_fresh c' hf1, alPut_fresh c hf2]
+      exact ⟨rfl, hraw, hrel⟩
+    obtain ⟨actual, expected, h1, h2, h3⟩ := lockstep cfg decode envJ ms cs _ _ hcar' hnd.2 hfresh' hrel'
+    refine ⟨actual, expected, ?_, ?_, h3⟩
+    · unfold resolve
+      simp only [hf1, Option.isSome_none, Bool.and_false, Bool.false_eq_true, if_false, hc']
+      exact h1
+    · unfold expectedMap
+      exact h2
+
+theorem rewriteSingle_ids (ms : List Mapping) : (rewriteSingle ms).map (·.id) = ms.map (·.id) := by
+  unfold rewriteSingle
+  split
+  · rfl
+  · rfl
+
+theorem validate_own_submission (cfg : Cfg) (re : Regex) (decode : Decoder) (pd : PD) (env : Envelope)
+    (ms : List Mapping) (vcs : List Cred)
+    (hpres : env.presentations = [vcs]) (hsig : env.signerOK.any (fun b => !b) = false)
+    (hstable : pdMatch cfg re pd vcs = .ok (ms, vcs))
+    (hids : (ms.map (·.id)).Nodup)
+    (hcar : Carries decode env.asInterface (rewriteSingle ms) vcs) :
+    ∃ m, validate cfg re decode pd env (rewriteSingle ms) = .ok m ∧ expectedMap [] (rewriteSingle ms) vcs = .ok m := by
+  have hnd : ((rewriteSingle ms).map (·.id)).Nodup := by rw [rewriteSingle_ids]; exact hids
+  obtain ⟨actual, expected, h1, h2, h3⟩ := lockstep cfg decode env.asInterface (rewriteSingle ms) vcs [] [] hcar hnd
+    (fun _ _ => alGet_nil _) trivial
+  have hb : build cfg re pd env.presentations = .ok (rewriteSingle ms, vcs) := by
+    rw [hpres]; unfold build firstWallet; rw [hstable]
+  obtain ⟨e1, _⟩ := expectedMap_spec (rewriteSingle ms) vcs [] expected h2 List.nodup_nil
+  refine ⟨expected, ?_, h2⟩
+  unfold validate
+  rw [h1]
+  simp only [hpres, List.isEmpty_cons, Bool.false_eq_true, if_false, hsig]
+  rw [hpres] at hb
+  rw [hb]
+  simp only [h2]
+  have hlen := SameRaw.length_eq h3
+  have hsm := sameMapping_of_pointwise actual expected (SameRaw.pointwise h3 e1)
+  simp [hlen, hsm]
+
+
+/-! ### completeness: "no match" answers are right -/
+
+theorem matchEnum_complete (cfg : Cfg) (hg : cfg.arrayGuard = true) (re : Regex) (v : J) (hs : EnumErrorsHideNothing cfg re v) :
+    ∀ es, matchEnum cfg re v es = .ok none → ∀ e ∈ es, ¬ Matches re "string" (some e) none v
+  | [], _, e, he => by cases he
+  | e0 :: es, h, e, he => by
+    unfold matchEnum at h
+    split at h
+    · cases h
+    · cases h
+    · next hns hnp =>
+      cases he with
+      | tail _ h' => exact matchEnum_complete cfg hg re v hs es h e h'
+      | head =>
+        cases hr : matchCore cfg re "string" (some e0) none v with
+        | ok o =>
+          cases o with
+          | some x => exact absurd hr (hns x)
+          | none => exact (matchCore_spec cfg hg re "string" (some e0) none v).2 hr
+        | err msg => exact hs e0 msg hr
+        | panic s => exact absurd hr (hnp s)
+
+theorem matchFilter_complete (cfg : Cfg) (hg : cfg.arrayGuard = true) (re : Regex) (f : Filter) (v : J)
+    (hs : EnumErrorsHideNothing cfg re v) (h : matchFilter cfg re f v = .ok none) : ¬ FilterMatches re f v := by
+  unfold matchFilter at h
+  unfold FilterMatches
+  split at h
+  · next es heq =>
+    rw [heq]
+    intro ⟨e, he, hm⟩
+    exact matchEnum_complete cfg hg re v hs es h e he hm
+  · next heq =>
+    rw [heq]
+    exact (matchCore_spec cfg hg re f.type f.const f.pattern v).2 h
+
+theorem matchFieldLoop_complete (cfg : Cfg) (hg : cfg.arrayGuard = true) (re : Regex) (f : Field) (tree : J)
+    (hs : ∀ p v, getValueAtPath p tree = some v → EnumErrorsHideNothing cfg re v) :
+    ∀ (ps : List (Option Path)) (inv : Bool), matchFieldLoop cfg re f tree inv ps = .ok .no →
+      (∀ p, some p ∈ ps → ∀ v, getValueAtPath p tree = some v → ∃ flt, f.filter = some flt ∧ ¬ FilterMatches re flt v) ∧
+      (f.optional = true → inv = true ∨ ∃ p, some p ∈ ps ∧ getValueAtPath p tree ≠ none)
+  | [], inv, h => by
+    unfold matchFieldLoop at h
+    split at h
+    · cases h
+    · next hc =>
+      refine ⟨fun p hp => (by cases hp), fun hopt => Or.inl ?_⟩
+      cases inv with
+      | true => rfl
+      | false => simp [hopt] at hc
+  | none :: ps, inv, h => by simp [matchFieldLoop] at h
+  | some p :: ps, inv, h => by
+    unfold matchFieldLoop at h
+    split at h
+    · next hnone =>
+      have ih := matchFieldLoop_complete cfg hg re f tree hs ps inv h
+      refine ⟨fun p' hp' v hv => ?_, fun hopt => ?_⟩
+      · cases hp' with
+        | head => rw [hnone] at hv; cases hv
+        | tail _ h' => exact ih.1 p' h' v hv
+      · rcases ih.2 hopt with h1 | ⟨p', hp', hne⟩
+        · exact Or.inl h1
+        · exact Or.inr ⟨p', List.mem_cons_of_mem _ hp', hne⟩
+    · next v hv =>
+      split at h
+      · cases h
+      · next flt hflt =>
+        split at h
+        · cases h
+        · next heq =>
+          have ih := matchFieldLoop_complete cfg hg re f tree hs ps true h
+          have hnm := matchFilter_complete cfg hg re flt v (hs p v hv) heq
+          refine ⟨fun p' hp' v' hv' => ?_, fun _ => Or.inr ⟨p, List.mem_cons_self, by rw [hv]; simp⟩⟩
+          cases hp' with
+          | head => rw [hv] at hv'; injection hv' with hv'; subst hv'; exact ⟨flt, hflt, hnm⟩
+          | tail _ h' => exact ih.1 p' h' v' hv'
+        · cases h
+        · cases h
+
+theorem matchField_complete (cfg : Cfg) (hg : cfg.arrayGuard = true) (re : Regex) (f : Field) (tree : J)
+    (hs : ∀ p v, getValueAtPath p tree = some v → EnumErrorsHideNothing cfg re v)
+    (h : matchField cfg re f tree = .ok .no) : ¬ FieldSat re f tree := by
+  have := matchFieldLoop_complete cfg hg re f tree hs f.paths false h
+  intro hsat
+  rcases hsat with ⟨p, hp, v, hv, hflt⟩ | ⟨hopt, hall⟩
+  · obtain ⟨flt, hf, hnm⟩ := this.1 p hp v hv
+    exact hnm (hflt flt hf)
+  · rcases this.2 hopt with h1 | ⟨p, hp, hne⟩
+    · cases h1
+    · exact hne (hall p hp)
+
+theorem matchConstraintLoop_complete (cfg : Cfg) (hg : cfg.arrayGuard = true) (re : Regex) (tree : J)
+    (hs : ∀ p v, getValueAtPath p tree = some v → EnumErrorsHideNothing cfg re v) :
+    ∀ (fs : List Field) (acc : Values), matchConstraintLoop cfg re tree acc fs = .ok none → ∃ f ∈ fs, ¬ FieldSat re f tree
+  | [], acc, h => by simp [matchConstraintLoop] at h
+  | f :: fs, acc, h => by
+    unfold matchConstraintLoop at h
+    split at h
+    · next heq => exact ⟨f, List.mem_cons_self, matchField_complete cfg hg re f tree hs heq⟩
+    · obtain ⟨f', hf', hn⟩ := matchConstraintLoop_complete cfg hg re tree hs fs _ h
+      exact ⟨f', List.mem_cons_of_mem _ hf', hn⟩
+    · cases h
+    · cases h
+
+theorem firstMatch_complete (cfg : Cfg) (hg : cfg.arrayGuard = true) (re : Regex) (pd : PD) (d : Desc) :
+    ∀ (w : List Cred), (∀ c ∈ w, ∀ p v, getValueAtPath p c.tree = some v → EnumErrorsHideNothing cfg re v) →
+      firstMatch cfg re pd d w = .ok none → ∀ c ∈ w, ¬ Satisfies re pd d c
+  | [], _, _, c, hc => by cases hc
+  | c0 :: cs, hs, h, c, hc => by
+    unfold firstMatch at h
+    have hs' : ∀ c ∈ cs, ∀ p v, getValueAtPath p c.tree = some v → EnumErrorsHideNothing cfg re v :=
+      fun c hc => hs c (List.mem_cons_of_mem _ hc)
+    split at h
+    · split at h
+      · cases h
+      · next hf =>
+        cases hc with
+        | head =>
+          intro hsat
+          apply hf
+          simp [hsat.2.1, hsat.2.2]
+        | tail _ h' => exact firstMatch_complete cfg hg re pd d cs hs' h c h'
+    · next heq =>
+      cases hc with
+      | head =>
+        intro hsat
+        unfold matchCredential at heq
+        split at heq
+        · cases heq
+        · next fields hfs =>
+          unfold matchConstraint at heq
+          split at heq
+          · next r hr =>
+            injection heq with heq
+            cases r with
+            | some _ => simp at heq
+            | none =>
+              obtain ⟨f, hf, hn⟩ := matchConstraintLoop_complete cfg hg re c0.tree (hs c0 List.mem_cons_self) fields [] hr
+              exact hn (hsat.1 fields hfs f hf)
+          · cases heq
+          · cases heq
+      | tail _ h' => exact firstMatch_complete cfg hg re pd d cs hs' h c h'
+    · cases h
+    · cases h
+
+theorem matchConstraints_complete (cfg : Cfg) (hg : cfg.arrayGuard = true) (re : Regex) (pd : PD) (w : List Cred)
+    (hs : ∀ c ∈ w, ∀ p v, getValueAtPath p c.tree = some v → EnumErrorsHideNothing cfg re v) :
+    ∀ (ds : List Desc) (cands : List Cand), matchConstraints cfg re pd w ds = .ok cands →
+      ∀ d, (d, none) ∈ cands → ∀ c ∈ w, ¬ Satisfies re pd d c
+  | [], cands, h, d, hd => by
+    unfold matchConstraints at h; injection h with h; subst h; cases hd
+  | d0 :: ds, cands, h, d, hd => by
+    unfold matchConstraints at h
+    split at h
+    · next oc heq =>
+      split at h
+      · next r heq2 =>
+        injection h with h; subst h
+        cases hd with
+        | head => exact firstMatch_complete cfg hg re pd d0 w hs heq
+        | tail _ h' => exact matchConstraints_complete cfg hg re pd w hs ds r heq2 d h'
+      · cases h
+      · cases h
+    · cases h
+    · cases h
+
+/-- without submission requirements: "missing credentials" is only reported when some input descriptor really has no
+    satisfying credential in the wallet -/
+theorem matchBasic_complete (cfg : Cfg) (hg : cfg.arrayGuard = true) (re : Regex) (pd : PD) (w : List Cred)
+    (hs : ∀ c ∈ w, ∀ p v, getValueAtPath p c.tree = some v → EnumErrorsHideNothing cfg re v)
+    (hsr : pd.srs = []) (e : String) (h : pdMatch cfg re pd w = .err e) :
+    (∃ d ∈ pd.descs, ∀ c ∈ w, ¬ Satisfies re pd d c) ∨ ∃ ds, matchConstraints cfg re pd w pd.descs = .err ds := by
+  unfold pdMatch at h
+  simp only [hsr, List.isEmpty_nil, Bool.not_true, Bool.false_eq_true, if_false] at h
+  unfold matchBasic at h
+  split at h
+  · next cands heq =>
+    left
+    split at h
+    · next hany =>
+      obtain ⟨x, hx, hxn⟩ := List.any_eq_true.1 hany
+      obtain ⟨d, oc⟩ := x
+      cases oc with
+      | some _ => simp at hxn
+      | none =>
+        have hd : d ∈ pd.descs := by
+          have := (matchConstraints_sound cfg hg re pd w pd.descs cands heq).1
+          rw [← this]; exact List.mem_map.2 ⟨(d, none), hx, rfl⟩
+        exact ⟨d, hd, matchConstraints_complete cfg hg re pd w hs pd.descs cands heq d hx⟩
+    · cases h
+  · next e' heq => exact Or.inr ⟨e', heq⟩
+  · cases h
+
 end Nuts.C12
